@@ -64,6 +64,7 @@ GuardValue(c, S, gv, i) ==
     [] t.gk = "after"  -> S.time - t.ga >= S.entryT[t.src]
     [] t.gk = "idle"   -> S.time - t.ga >= S.idleT[t.src]
     [] t.gk = "active" -> t.ga \in S.conf
+    [] t.gk = "xlt"    -> S.x < t.ga            \* guard  x < ga  (plain code, no oracle)
 
 (* _select_transitions(event, states=conf), eventless_first, inner_first.  *)
 (* Returns [sel : Seq(tid) in selection order, glog : Seq(log entries)]    *)
